@@ -188,6 +188,55 @@ pub fn with_schedule<R>(s: &Schedule, f: impl FnOnce() -> R) -> (R, Vec<ChoicePo
     (r, trace)
 }
 
+/// Index (factorial number system, as understood by the hooks' `permute`) of a permutation given
+/// as "output position i takes sorted element perm[i]".
+pub fn perm_index(perm: &[usize]) -> usize {
+    let n = perm.len();
+    let mut avail: Vec<usize> = (0..n).collect();
+    let mut idx = 0usize;
+    for (i, p) in perm.iter().enumerate() {
+        let k = avail.iter().position(|x| x == p).unwrap_or(0);
+        avail.remove(k);
+        idx = idx.saturating_add(k.saturating_mul(factorial(n - 1 - i)));
+    }
+    idx
+}
+
+/// The alternative orders tried at a choice point with n elements: all n!-1 for n <= 4; for
+/// larger n the generating set {reversal, every adjacent transposition, every move-to-front,
+/// every move-to-back} (a stated reduction of the order alphabet, reported in the evidence).
+pub fn alternatives(n: usize) -> Vec<usize> {
+    if n <= 4 {
+        return (1..factorial(n)).collect();
+    }
+    let id: Vec<usize> = (0..n).collect();
+    let mut perms: Vec<Vec<usize>> = vec![];
+    let mut rev = id.clone();
+    rev.reverse();
+    perms.push(rev);
+    for i in 0..n - 1 {
+        let mut p = id.clone();
+        p.swap(i, i + 1);
+        perms.push(p);
+    }
+    for i in 1..n {
+        let mut p = id.clone();
+        let x = p.remove(i);
+        p.insert(0, x);
+        perms.push(p);
+    }
+    for i in 0..n - 1 {
+        let mut p = id.clone();
+        let x = p.remove(i);
+        p.push(x);
+        perms.push(p);
+    }
+    let mut idx: Vec<usize> = perms.iter().map(|p| perm_index(p)).filter(|i| *i != 0).collect();
+    idx.sort();
+    idx.dedup();
+    idx
+}
+
 /// Stateless DFS over schedules with a bound on the number of deviating choice points.
 /// `run` executes one schedule and returns the trace of choice points met. Returns the number of
 /// schedules executed and whether the enumeration was complete for the given bound.
@@ -210,8 +259,7 @@ pub fn explore_schedules(
         count += 1;
         // children: deviate at one later point
         for i in (from..trace.len()).rev() {
-            let nf = factorial(trace[i].n);
-            if nf <= 1 {
+            if trace[i].n <= 1 {
                 continue;
             }
             if let Some(b) = bound {
@@ -219,7 +267,7 @@ pub fn explore_schedules(
                     continue;
                 }
             }
-            for alt in (1..nf).rev() {
+            for alt in alternatives(trace[i].n).into_iter().rev() {
                 let mut p: Vec<usize> = (0..i)
                     .map(|j| prefix.get(j).copied().unwrap_or(0))
                     .collect();
